@@ -74,6 +74,7 @@ type sys struct {
 	terr    *ccontainer.CContainer[*error]
 	roots   []context.Context
 	cancels []context.CancelFunc
+	rootc   [4]bool // root contexts cancelled by their owner (event 14)
 	gors    []*ctl.Actor
 	asyncs  []*ctl.Actor
 	refs    []*refdata
@@ -86,6 +87,8 @@ type sys struct {
 	constVal bool
 	// wantAcc: this history uses Access consumers
 	wantAcc bool
+	// wantRootCancel: the owner of a root context may cancel it in this history
+	wantRootCancel bool
 	// poisoned: a library call panicked while holding the RefCount mutex; nothing can be driven any further
 	poisoned bool
 }
@@ -528,6 +531,13 @@ func (s *sys) exec(ev []uint64) (obs []uint64, ok bool) {
 			return nil, false
 		}
 		s.c.Step(d.fire)
+	case 14:
+		if ev[1] < 1 || ev[1] > 3 {
+			return nil, false
+		}
+		s.rootc[ev[1]] = true
+		s.cancels[ev[1]]()
+		synctest.Wait()
 	case 13:
 		i := int(ev[1])
 		if i >= len(s.cons) || (ev[2] != 0 && ev[2] != 1 && ev[2] != 10 && ev[2] != 11) {
@@ -699,6 +709,8 @@ func (s *sys) gen(r *rand.Rand, maxG int) []uint64 {
 			return []uint64{10, uint64(r.IntN(2))}
 		case x < 93 && len(incb) > 0:
 			return []uint64{13, uint64(pick(r, incb)), cbres()}
+		case x == 93 && s.wantRootCancel && len(s.gors) > 0:
+			return []uint64{14, uint64(1 + r.IntN(2))}
 		case x < 94 && len(conslive) > 0 && (!s.wantAcc || r.IntN(4) == 0):
 			return []uint64{11, uint64(pick(r, conslive))}
 		case x < 100 && len(firep) > 0:
@@ -710,7 +722,7 @@ func (s *sys) gen(r *rand.Rand, maxG int) []uint64 {
 
 func (s *sys) count(ev, obs []uint64) {
 	names := map[uint64]string{1: "setcontext", 2: "addref", 3: "release", 4: "removeref_section", 5: "released_sync", 6: "released_async_section",
-		7: "proceed", 8: "resolver_return", 9: "store", 10: "consumer", 11: "consumer_cancel", 12: "wwr_fire_section", 13: "access_callback_return"}
+		7: "proceed", 8: "resolver_return", 9: "store", 10: "consumer", 11: "consumer_cancel", 12: "wwr_fire_section", 13: "access_callback_return", 14: "root_context_cancelled"}
 	s.w.Count("ev."+names[ev[0]], 1)
 	inres, blocked := 0, 0
 	for _, a := range s.gors {
@@ -729,6 +741,9 @@ func (s *sys) count(ev, obs []uint64) {
 	}
 	if len(s.parkedAsyncs()) > 0 {
 		s.w.Count("obs.async_released_parked", 1)
+	}
+	if ev[0] == 5 && (s.rootc[1] || s.rootc[2] || s.rootc[3]) {
+		s.w.Count("obs.released_after_root_cancel", 1)
 	}
 	if ev[0] == 10 && ev[1] == 2 {
 		s.w.Count("ev.consumer_access", 1)
@@ -756,6 +771,7 @@ func runRandom(t *testing.T, w *hist.W, h int) {
 		cfg := []uint64{uint64(r.IntN(2)), uint64(b2u(r.IntN(4) == 0))}
 		s := newSys(w, cfg)
 		s.wantAcc = r.IntN(3) == 0 || cfg[1] == 1
+		s.wantRootCancel = r.IntN(3) == 0
 		defer s.teardown()
 		w.Begin(fmt.Sprintf("r%d", h), cfg)
 		steps := 10 + r.IntN(60)
